@@ -115,6 +115,9 @@ def sampling_body(t, rate, d0, d1, d2, d3, max_pairs=2):
             tracer(fr, "call", ValueError("thrown in, handled by the body") if (thrown and i == 0) else None)
         fr.f_lasti = AT_RETURN if final == 0 else AT_RAISE
         tracer(fr, "return", ret_val)
+    except AttributeError:
+        if not rnd.unmodelled:  # (an unmodelled random.* function: judged INCONCLUSIVE below)
+            raise
     finally:
         T.random = saved
     if rnd.unmodelled:
@@ -200,6 +203,9 @@ def two_frames_body(t, rate, d0, d1, d2, d3):
                 fr.f_lasti = AT_RETURN
                 tracer(fr, "return", None)
                 finished.append(idx)
+    except AttributeError:
+        if not rnd.unmodelled:  # (an unmodelled random.* function: judged INCONCLUSIVE below)
+            raise
     finally:
         T.random = saved
     if rnd.unmodelled:
@@ -294,6 +300,9 @@ def abandon_body(t, rate, d0, d1, d2, d3):
         tracer(fb, "call", None)
         fb.f_lasti = r_off
         tracer(fb, "return", ret_b)
+    except AttributeError:
+        if not rnd.unmodelled:  # (an unmodelled random.* function: judged INCONCLUSIVE below)
+            raise
     finally:
         T.random = saved
     if rnd.unmodelled:
@@ -318,6 +327,99 @@ def abandon_body(t, rate, d0, d1, d2, d3):
     return check(not residue(tracer, fb), "per-call state of the finished call left in the tracer")
 
 
+class CyclicRandom(ScriptedRandom):
+    """randrange returns the scripted (symbolic) draws in a cycle: call number i gets draws[i % len(draws)]."""
+
+    def randrange(self, n):
+        d = self.draws[self.i % len(self.draws)]
+        self.i += 1
+        if not (0 <= d and d < n):
+            self.bad = True
+            return 0
+        self.calls.append(n)
+        return d
+
+
+def realrun_sampled_body(t):
+    """The recorded real workload (real code objects, real bytecode offsets: `yield from` delegation, coroutines that
+    really await, generators that rebind their parameters, interleaved generator frames) under sampling: every NEW call
+    takes exactly one draw (the i-th new call gets draw i mod 3), resumptions take none; the logged traces are exactly the
+    reference traces of the calls whose own draw was 0.  (Rate and draws are tape-decoded here: that the decision is
+    `randrange(N) == 0` for EVERY N and every draw value is the business of the model-frame harnesses above.)"""
+    import harness.c02 as C2
+
+    r = (None, 1, 2, 3)[t.take(4)]
+    d0, d1, d2 = t.take(2), t.take(2), t.take(2)
+    evs = C2.recorded_events()
+    draws = [d0, d1, d2]
+    # reference: which frames are new calls (in order), and the unsampled log
+    order, seen = [], set()
+    for e in evs:
+        if e.event == "call" and e.frame_id not in seen:
+            seen.add(e.frame_id)
+            order.append(e.frame_id)
+    expected_all, _unfinished = C2._expected_log(evs, lambda code: True, 0)
+    # frames of unresolvable functions take no draw?  they do: the draw precedes function lookup
+    logger = ListLogger()
+    rnd = CyclicRandom(draws)
+    saved = T.random
+    T.random = rnd
+    proxies = {}
+    try:
+        tracer = CallTracer(logger, 0, None, r)
+        for e in evs:
+            fr = proxies.get(e.frame_id)
+            if fr is None:
+                back = None
+                for locs in reversed(e.back_locals):
+                    back = FakeFrame(None, locs, {}, back)
+                fr = proxies[e.frame_id] = FakeFrame(e.code, {}, e.globals, back)
+            fr.f_locals, fr.f_lasti = e.locals, e.lasti
+            tracer(fr, e.event, e.arg)
+    except AttributeError:
+        if not rnd.unmodelled:  # (an unmodelled random.* function: judged INCONCLUSIVE below)
+            raise
+    finally:
+        T.random = saved
+    if rnd.unmodelled:
+        return _V.INCONCLUSIVE(f"the tracer draws with random.{rnd.unmodelled}, which the environment stub does not model")
+    ASSUME(not rnd.bad)
+    sampling = not (r is None or r == 1)
+    if sampling and rnd.i != len(order):
+        return check(False, lambda: f"rate={_i(r)}: {rnd.i} sampling draws were taken for {len(order)} new calls (a resumption was drawn for, or a new call was not)")
+    sampled = {fid: (not sampling) or (draws[i % 3] == 0) for i, fid in enumerate(order)}
+    # expected log: the reference entries of sampled frames, in completion order
+    done_order = []
+    state = {}
+    for e in evs:
+        if e.event == "return":
+            kind = C2.classify_exit(e.op, bool(e.code.co_flags & C2.CO_COROUTINE))
+            if kind in ("return", "exception"):
+                done_order.append(e.frame_id)
+    want = [(fid, ent) for fid, ent in zip(done_order, expected_all) if sampled[fid]]
+    got = list(logger.traces)
+    gi = 0
+    for fid, (code, entry, ret_present, ret_value, yields) in want:
+        optional = code.co_name in C2.UNRESOLVABLE_OK
+        tr = got[gi] if gi < len(got) else None
+        if tr is None or getattr(tr.func, "__code__", None) is not code:
+            if optional:
+                continue
+            return check(False, lambda: f"rate={_i(r)} draws={[int(x) for x in draws]}: the sampled call of {code.co_qualname} is not in the log at its place "
+                                        f"(logged there: {tr.func.__qualname__ if tr is not None else 'nothing'})")
+        truth = C2._truth_function(code)
+        rr = C2._same_trace(tr, truth if truth is not None else tr.func, entry, ret_present, ret_value, yields, 0)
+        if rr:
+            return check(False, lambda: f"rate={_i(r)} draws={[int(x) for x in draws]}: trace of {code.co_qualname}: {rr}")
+        gi += 1
+    if gi != len(got):
+        return check(False, lambda: f"rate={_i(r)} draws={[int(x) for x in draws]}: {len(got) - gi} trace(s) logged for calls whose own draw was not 0 "
+                                    f"(first: {got[gi].func.__qualname__})")
+    left = [n for fid, fr in proxies.items() if fid not in _unfinished for n in residue(tracer, fr)]
+    return check(not left, lambda: f"per-call state left in tracer.{left[0]} after every call finished")
+
+
+tape_harness("realrun_sampled", [("t", 4)], {}, realrun_sampled_body, globals())
 tape_harness("abandon", [("t", 8)], {"rate": "int", "d0": "int", "d1": "int", "d2": "int", "d3": "int"}, abandon_body, globals())
 tape_harness("sampling_two", [("t", 8)], {"rate": "int", "d0": "int", "d1": "int", "d2": "int", "d3": "int"}, two_frames_body, globals())
 
@@ -347,6 +449,8 @@ def shards(name):
 
     if name == "sampling_two":
         return [{f"t{j}": v for j, v in enumerate(p)} for p in enumerate_prefixes(lambda t: two_frames_body(t, 2, 0, 0, 0, 0), 3)]
+    if name == "realrun_sampled":
+        return [{"t0": i, "t1": a, "t2": b, "t3": c} for i in range(4) for a in (0, 1) for b in (0, 1) for c in (0, 1) if i >= 2 or (a, b, c) == (0, 0, 0)]
     if name == "abandon":
         return [{f"t{j}": v for j, v in enumerate(p)} for p in enumerate_prefixes(lambda t: abandon_body(t, 2, 0, 0, 0, 0), 3)]
     mp = 2 if name == "sampling_quick" else 3
